@@ -5,7 +5,8 @@ RULE = ("mode 1: a real Node is constructed from a generated Config (every durat
         "1 s / 5 s / 1 h / 24 h each -1/+0/+1, INT64 extremes; min > max, default outside the window; PoW difficulties 0..255) "
         "and its effective config() is read back; mode 2: Node::store_chunk with requested TTLs (negative, 0, 1, min-1, min, "
         "max, max+1, huge) under the virtual clock, reading the four deadlines it creates (ChunkStore record, manifest "
-        "expires_at, shard record, own provider announcement); mode 3: the control server's STORE handler (the real "
+        "expires_at, shard record, own provider announcement); mode 4: the same chunk stored twice with the clock moved by 0 ms .. twice "
+        "the first lifetime in between (the second store's four deadlines are read); mode 3: the control server's STORE handler (the real "
         "ControlServer::Impl::handle_client over a socketpair) with TTL headers: absent, digits around min/max, 2^63, "
         "2^64-1, 2^64, values congruent to an acceptable TTL modulo 2^16 / 2^31 / 2^32 / 2^63, leading zeros / sign / spaces / hex / empty / trailing garbage. Oracle (independent of the model): "
         "1 <= min <= max <= 86400, min <= default <= max, 5 <= rotation <= 3600, PoW <= 24; every created lifetime is inside "
@@ -46,6 +47,15 @@ def generate(rng, tier):
         ttl = rng.choice([0, -1, -100, 1, 2, c[0] - 1, c[0], c[0] + 1, c[1] - 1, c[1], c[1] + 1, 86400, 86401, 10 ** 12,
                           rng.randrange(1, 100000)])
         cases.append({"ints": [2] + c + [ttl], "tag": "store"})
+    # the same chunk stored again after the clock moved (0 ms, a few ms, just before / at / after the first deadline): the
+    # second store's lifetimes must again be the requested (sanitised) TTL, whatever is left of the first record
+    for _ in range(n // 2):
+        c = rand_cfg(rng)
+        t1 = rng.choice([1, 2, 30, 60, 3600, c[0], c[1], rng.randrange(1, 100000)])
+        t2 = rng.choice([0, 1, 30, 60, 3600, 86400, c[0], c[1], c[1] + 1, rng.randrange(1, 100000)])
+        e1 = max(1, t1)
+        dt = rng.choice([0, 1, 999, 1000, 3000, e1 * 1000 - 1000, e1 * 1000 - 1, e1 * 1000, e1 * 1000 + 1, e1 * 500, rng.randrange(0, 2 * e1 * 1000 + 1)])
+        cases.append({"ints": [4] + c + [t1, max(0, dt), t2], "tag": "restore"})
     m = {"quick": 60, "search": 120, "thorough": 600}[tier]
     for _ in range(m):
         c = rand_cfg(rng)
@@ -87,8 +97,8 @@ def judge(case, impl, model):
             return {"fail": "C02|pow-difficulty-above-24"}
         return {"nontrivial": impl != c}
     mn, mx = impl[0], impl[1]
-    if mode == 2:
-        ttl = ints[11]
+    if mode in (2, 4):
+        ttl = ints[11] if mode == 2 else ints[13]
         lts = impl[2:6]
         names = ["chunk-record", "manifest-expiry", "shard-record", "self-announcement"]
         for nm, v in zip(names, lts):
@@ -98,7 +108,7 @@ def judge(case, impl, model):
             return {"fail": "C02|requested-ttl-not-honoured"}
         if len(set(lts)) != 1:
             return {"fail": "C02|lifetimes-differ"}
-        return {"nontrivial": not (mn <= ttl <= mx)}
+        return {"nontrivial": mode == 4 or not (mn <= ttl <= mx)}
     if mode == 3:
         has = ints[11]
         text = bytes(ints[13:13 + ints[12]]).decode("latin1") if has else None
